@@ -68,8 +68,15 @@ func c19Cfg(name string, version int) v1.ProxyConfigurer {
 	c.LocalIP = "127.0.0.1"
 	c.LocalPort = 80
 	c.RemotePort = 6000 + version
+	if c19DiffLocal {
+		// two versions of a definition differ only in what stays on the client (the backend's port):
+		// the registration message is the same, the proxy must be restarted all the same
+		c.LocalPort, c.RemotePort = 80+version, 6000
+	}
 	return c
 }
+
+var c19DiffLocal bool
 
 type c19Entry struct {
 	name    string
@@ -117,6 +124,7 @@ func VerifC19ProxyUpdate() {
 	pm := NewManager(context.Background(), &v1.ClientCommonConfig{}, tr, nil)
 	reloads := zzverif.Param("reloads", 2)
 	maxLen := zzverif.Param("maxLen", 3)
+	c19DiffLocal = zzverif.Bool("versionsDifferOnlyInTheLocalBackend")
 	var prev []c19Entry
 	for r := 0; r < reloads; r++ {
 		cur := c19List(maxLen)
